@@ -386,6 +386,10 @@ def e11_bad_hardcoded(tree, pts, ins, pick):
         p.lst.insert(p.idx, {"tag": "field", "name": nm, "type": pick(vis), "value": "1"})
     elif mode == "blob":
         p.lst.insert(p.idx, {"tag": "field", "name": nm, "type": "blob", "value": "abc"})
+    elif pick([True, False]):
+        # a literal shorter than the declared length is just as wrong - padded or not
+        p.lst.insert(p.idx, {"tag": "field", "name": pick([None, nm]), "type": pick(["string", "encoded_string"]),
+                             "length": pick(["4", "6"]), "padded": pick([True, True, None]), "value": pick(["ab", "x"])})
     else:
         p.lst.insert(p.idx, {"tag": "field", "name": pick([None, nm]), "type": "string", "length": "3", "value": "abcd"})
     return mode + ":" + p.placement
